@@ -389,6 +389,21 @@ func checkC06(e *Env) {
 			}
 		}
 	})
+	// one source that stays installed over many calls, fails during some and works again
+	transientCalls := e.transientHistories(drv, "C06", e.pick(60, 1500), func(c *transientCall) {
+		op := &c.ops[c.i]
+		if c.failedNow {
+			// the source failed before 4n/3 bytes were delivered in this call
+			if c.res.Panic == "" && (c.res.Err == nil || c.res.Out != "") && c.matchedAt < 0 {
+				e.Violate(&Violation{What: fmt.Sprintf("a source that stays installed failed during NewMnemonic(%d, %s) after delivering %d bytes in this call, yet the call returned err=%s and %s, which encodes no %d bytes the source had delivered and left unused", op.N, ref.Names[op.L], c.deliveredOK, errText(c.res.Err), preview(string(unhex(c.res.Out))), c.need),
+					Ops: c.ops[:c.i+1], Observed: c.res, Detail: historyNote})
+			}
+			return
+		}
+		if why := c.workingSourceVerdict(); why != "" {
+			e.Violate(&Violation{What: "a source that stays installed, fails during some calls and works again: " + why, Ops: c.ops[:c.i+1], Observed: c.res, Detail: historyNote})
+		}
+	})
 	wantMatrix := 0
 	for _, n := range ref.WordCounts {
 		need := n + n/3
@@ -398,9 +413,10 @@ func checkC06(e *Env) {
 		fatalInconclusive("C06: failure matrix has %d of %d cells", matrix.Len(), wantMatrix)
 	}
 	e.WriteEvidence("fault_enumeration", map[string]any{
-		"evaluations":                   stats.Ops,
-		"distinct_nontrivial":           dist.Len(),
-		"calls_inside_histories":        histCalls,
+		"evaluations":            stats.Ops,
+		"distinct_nontrivial":    dist.Len(),
+		"calls_inside_histories": histCalls,
+		"calls_on_a_source_that_fails_transiently_and_stays_installed": transientCalls,
 		"rule":                          "a case is a scripted randomness source (bytes, per-read delivery sizes, failure point, failure kind, error alone or alongside the last bytes) x word count x language; enumerated: every failure point k in 0..4n/3-1 for n in {12,15,18,21,24} x 13 failure kinds (io.EOF, io.ErrUnexpectedEOF, a custom error, EINTR, EAGAIN, *os.PathError, Temporary()/Timeout() errors, os.ErrDeadlineExceeded, io.ErrNoProgress, io.ErrShortBuffer, io.ErrClosedPipe, wrapped EOF; sticky: the source keeps failing) x {alone, alongside} plus plain end of data, each under several fragmentations (one read, 1-byte reads, halves, (k-1)+1, 1+(k-1), zero-length reads interleaved, seeded random compositions); successes under the same fragmentations incl. zero-leading data; all cases non-trivial (the result is compared with the reference encoding of the delivered prefix, or must be (\"\", non-nil error)); distinct by (data, script, n, language)",
 		"samples":                       smp.List(),
 		"failure_matrix_cells_covered":  matrix.Len(),
@@ -417,4 +433,135 @@ func checkC06(e *Env) {
 		"when the error arrives alongside the read that completes the 4n/3 bytes the monitor accepts either the correct mnemonic with a nil error or (\"\", error) — all bytes were delivered, so the property's failure clause does not apply",
 		"golden lists; reference encoder",
 	})
+}
+
+// transientHistories runs histories of NewMnemonic calls over ONE source that stays installed:
+// it fails in the middle of some calls and works again afterwards. judge receives, for every
+// NewMnemonic call with an accepted count, the reads the source saw during the call and the
+// bytes the source has delivered so far that no earlier successful call accounted for.
+// What a call must do when the source fails during it is C06's question; that a call during
+// which the source works succeeds with the encoding of delivered bytes — whatever happened in
+// earlier calls — is also C09's ("given a working source") and C13's ("does not depend on
+// earlier failures").
+type transientCall struct {
+	ops         []plan.Op
+	i           int
+	res         *plan.Res
+	need        int
+	failedNow   bool   // the source reported an error during this call before `need` bytes were delivered in it
+	consulted   bool   // the source saw at least one read during this call
+	unconsumed  []byte // bytes delivered so far (through this call) not yet attributed to a successful call
+	matchedAt   int    // >= 0: the result encodes unconsumed[matchedAt:matchedAt+need]
+	deliveredOK int    // bytes delivered during this call before any error
+	disturbed   bool   // the source reported an error at some point during this call
+}
+
+func (e *Env) transientHistories(drv, label string, n int, judge func(c *transientCall)) (calls int) {
+	var mu sync.Mutex
+	kinds := []string{"custom", "eof", "ueof", "temporary", "timeout", "eintr", "eagain", "deadline"}
+	parallel(n, e.Workers, func(h int) {
+		r := rng.New(e.Seed, label+"-transient-"+itoa(h))
+		lang := r.Intn(ref.NLang)
+		var ops []plan.Op
+		add := func(op plan.Op) { op.I = len(ops); ops = append(ops, op) }
+		// the script: reads are counted by the source, not by calls; a failing read delivers
+		// 0..k bytes together with or before the error and the source then works again
+		src := &plan.Src{Data: hx(r.Bytes(8192))}
+		rounds := 4 + r.Intn(5)
+		var counts []int
+		for k := 0; k < rounds; k++ {
+			cnt := ref.WordCounts[r.Intn(5)]
+			need := cnt + cnt/3
+			switch r.Intn(4) {
+			case 0: // error before any byte of the call
+				src.Steps = append(src.Steps, plan.Step{N: 0, E: kinds[r.Intn(len(kinds))], Once: true})
+			case 1: // some bytes, then the error on the next read
+				src.Steps = append(src.Steps, plan.Step{N: 1 + r.Intn(need-1)}, plan.Step{N: 0, E: kinds[r.Intn(len(kinds))], Once: true})
+			case 2: // some bytes delivered together with the error
+				src.Steps = append(src.Steps, plan.Step{N: 1 + r.Intn(need-1), E: kinds[r.Intn(len(kinds))], Once: true})
+			case 3: // this call is not disturbed
+			}
+			counts = append(counts, cnt)
+			// after a disturbed call, calls that find the source working
+			for j := 0; j < 1+r.Intn(3); j++ {
+				c2 := ref.WordCounts[r.Intn(5)]
+				counts = append(counts, c2)
+				src.Steps = append(src.Steps, plan.Step{N: c2 + c2/3})
+			}
+		}
+		add(plan.Op{Fn: "srcset", Src: src})
+		for _, cnt := range counts {
+			add(plan.Op{Fn: "new", L: int64(lang), N: int64(cnt)})
+			if r.Intn(3) == 0 {
+				add(plan.Op{Fn: "chk", L: int64(lang), S: hxs("not a mnemonic")})
+			}
+		}
+		add(plan.Op{Fn: "srcunset"})
+		res, died := e.RunProc(drv, ops, nil, 0)
+		if died != "" || len(res) != len(ops) {
+			return // crashes are C14's business
+		}
+		var stream []byte // delivered and not yet attributed
+		for i := range ops {
+			if ops[i].Fn != "new" {
+				continue
+			}
+			rr := &res[i]
+			c := &transientCall{ops: ops, i: i, res: rr, need: int(ops[i].N) + int(ops[i].N)/3, matchedAt: -1}
+			errSeen := false
+			for _, ev := range rr.Reads {
+				c.consulted = true
+				stream = append(stream, unhex(ev.D)...)
+				if !errSeen {
+					c.deliveredOK += ev.N
+				}
+				if ev.E != "" {
+					if c.deliveredOK < c.need {
+						c.failedNow = true
+					}
+					errSeen = true
+				}
+			}
+			c.unconsumed = stream
+			c.disturbed = errSeen
+			if rr.Panic == "" && rr.Err == nil && rr.Out != "" {
+				got := string(unhex(rr.Out))
+				for k := 0; k+c.need <= len(stream); k++ {
+					if e.Model.Enc(stream[k:k+c.need], int(ops[i].L)) == got {
+						c.matchedAt = k
+						break
+					}
+				}
+			}
+			judge(c)
+			if c.matchedAt >= 0 {
+				stream = stream[c.matchedAt+c.need:]
+			} else if c.failedNow || !c.consulted {
+				// bytes drawn by a failed call may be dropped or kept by the implementation
+			}
+			mu.Lock()
+			calls++
+			mu.Unlock()
+		}
+	})
+	return calls
+}
+
+// workingSourceVerdict is the part of the judgement shared by C06, C09 and C13: a call during
+// which the source reported no error must succeed with the encoding of bytes the source
+// delivered; "" when the call is fine or not covered.
+func (c *transientCall) workingSourceVerdict() string {
+	rr := c.res
+	if rr.Panic != "" || c.failedNow || c.disturbed {
+		return ""
+	}
+	switch {
+	case !c.consulted && rr.Err != nil && len(c.unconsumed) < c.need:
+		return fmt.Sprintf("NewMnemonic(%d) returned %q without consulting the source at all (the source would have delivered; an earlier call in the same process had failed): the outcome depends on an earlier failure", c.ops[c.i].N, errText(rr.Err))
+	case c.consulted && rr.Err != nil:
+		return fmt.Sprintf("NewMnemonic(%d) returned %q although the source delivered %d bytes without any error during the call (an earlier call in the same process had failed)", c.ops[c.i].N, errText(rr.Err), c.deliveredOK)
+	case rr.Err == nil && c.matchedAt < 0:
+		return fmt.Sprintf("NewMnemonic(%d) returned %s, which does not encode any %d consecutive bytes the source has delivered and that no earlier call used", c.ops[c.i].N, preview(string(unhex(rr.Out))), c.need)
+	}
+	return ""
 }
